@@ -17,7 +17,8 @@ KINDS = ["turtle_langevin", "ase_vv", "ase_langevin", "lammps", "cp2k", "gromacs
 def gen(rng):
     return {"engine": rng.choice(KINDS), "eng_seed": rng.randrange(1 << 30), "zero_momentum": rng.random() < 0.5,
             "maxlen": rng.choice([3, 6, 12]), "reverse": rng.random() < 0.3,
-            "settings_seed": rng.choice([None, 70])}
+            "settings_seed": rng.choice([None, 70]), "no_vel": rng.random() < 0.3,
+            "start_vel_rev": rng.random() < 0.3}
 
 
 def run_engine_case(case):
@@ -93,6 +94,22 @@ def run_engine_case(case):
         eng.rgen = np.random.default_rng(scn["eng_seed"])
         # ---------------- velocity generation
         clone = copy.deepcopy(eng.rgen)
+        vsystem = system
+        if kind == "gromacs" and scn.get("no_vel"):
+            # a start configuration without a VELOCITY block (initial .g96, or frames written with nstvout = 0)
+            with open(system.config[0]) as fh:
+                txt = fh.read()
+            a, b = txt.find("VELOCITY"), txt.find("END", txt.find("VELOCITY"))
+            if a >= 0 and b > a:
+                nov = os.path.join(scratch, "start_novel.g96")
+                with open(nov, "w") as fh:
+                    fh.write(txt[:a] + txt[b + 4:])
+                vsystem = system.copy()
+                vsystem.set_pos((nov, 0))
+        system, psystem = vsystem, system
+        if scn.get("start_vel_rev") and kind != "lattice":
+            system = system.copy()
+            system.vel_rev = True          # shooting from a frame of a backward segment
         sysA = system.copy()
         g0 = global_rng_digest()
         st0 = eng.rgen.bit_generator.state
@@ -132,7 +149,7 @@ def run_engine_case(case):
         g0 = global_rng_digest()
         path = Path(maxlen=scn["maxlen"])
         try:
-            eng.propagate(path, ens, system.copy(), reverse=scn["reverse"])
+            eng.propagate(path, ens, psystem.copy(), reverse=scn["reverse"])
         finally:
             if kind.startswith("turtle"):
                 real_integ.__init__ = real_init
